@@ -21,6 +21,15 @@ CMDS = ["pump_mode", "switch_on", "switch_off", "eco_on", "eco_off", "target_tem
 
 
 def gen_case(seed: int, tier: str, index: int) -> Dict[str, Any]:
+    if (index // len(snapshot_files())) % 5 == 4:
+        # every fifth sweep over the snapshots drives the blocking facade (the sync twins of every command)
+        from props import c13_t
+
+        return c13_t.gen_case(seed, tier, index, _gen_case_a)
+    return _gen_case_a(seed, tier, index)
+
+
+def _gen_case_a(seed: int, tier: str, index: int) -> Dict[str, Any]:
     rng = random.Random(mix(seed, "c13.case"))
     snaps = snapshot_files()
     snap = snaps[index % len(snaps)].split("/")[-1]
@@ -66,10 +75,182 @@ def decode_spack(raw: bytes) -> Dict[str, Any]:
     return out
 
 
+def build_command(op: Dict[str, Any], ci: int, facade, spa, res: RunResult, snapshot: str, sync: bool):
+    """Translate a plan op into (ctx, expect, thunk); thunk() issues the facade command (returns a coroutine in the async world).
+    Returns None when the configuration has no such device."""
+    from geckolib import GeckoConstants
+
+    switches = sorted(list(facade.blowers) + list(facade.lights), key=lambda d: d.key) if sync else list(facade.blowers) + list(facade.lights)
+    pumps = sorted(facade.pumps, key=lambda d: d.key) if sync else list(facade.pumps)
+    kind = op["op"]
+    ctx = f"command#{ci} {kind} snapshot={snapshot}"
+    expect: Dict[str, Any] = {"n": 1}
+    thunk = None
+    if kind == "pump_mode":
+        if not pumps:
+            return None
+        p = pumps[op["dev"] % len(pumps)]
+        modes = list(p.modes)
+        mode = modes[op["arg"] % len(modes)]
+        demand = p._user_demand["demand"] if hasattr(p, "_user_demand") else None
+        if demand is None:
+            raise HarnessError("GeckoPump._user_demand no longer exists")
+        expect.update(kind="set", tag=demand, value=mode)
+        ctx += f" {p.key} -> {mode}"
+        thunk = (lambda: p.set_mode(mode)) if sync else (lambda: p.async_set_mode(mode))
+        res.probe("pump_mode:" + mode)
+    elif kind in ("switch_on", "switch_off"):
+        if not switches:
+            return None
+        s = switches[op["dev"] % len(switches)]
+        on = kind == "switch_on"
+        was_on = bool(s.is_on)
+        ctx += f" {s.key} was_on={was_on}"
+        props = GeckoConstants.DEVICES[s.key]
+        if was_on == on:
+            expect.update(n=0)
+            res.probe(f"{'on' if on else 'off'}_when_already:{type(s).__name__}")
+        else:
+            expect.update(kind="key", key=KEYPAD[s.key], state_tag=props[2], on=on, switch=s)
+            res.probe(f"{'on' if on else 'off'}_from_{'on' if was_on else 'off'}:{type(s).__name__}")
+        if sync:
+            thunk = s.turn_on if on else s.turn_off
+        else:
+            thunk = s.async_turn_on if on else s.async_turn_off
+    elif kind in ("eco_on", "eco_off"):
+        s = facade.eco_mode
+        if s is None:
+            return None
+        on = kind == "eco_on"
+        was_on = bool(s.is_on)
+        ctx += f" eco was_on={was_on}"
+        if was_on == on:
+            expect.update(n=0)
+            res.probe("eco_already")
+        else:
+            expect.update(kind="set", tag=GeckoConstants.KEY_ECON_ACTIVE, value=on, switch=s, on=on)
+            res.probe("eco_" + ("on" if on else "off"))
+        if sync:
+            thunk = s.turn_on if on else s.turn_off
+        else:
+            thunk = s.async_turn_on if on else s.async_turn_off
+    elif kind == "target_temp":
+        h = facade.water_heater
+        if not h.is_present:
+            return None
+        lo, hi = h.min_temp, h.max_temp
+        t = lo + (op["arg"] % 1000) / 1000.0 * (hi - lo)
+        t = round(t, 1) if op["arg"] % 2 else float(int(t))
+        expect.update(kind="set", tag=GeckoConstants.KEY_SETPOINT_G, temp=t, unit=h.temperature_unit)
+        ctx += f" -> {t}{h.temperature_unit}"
+        thunk = (lambda: h.set_target_temperature(t)) if sync else (lambda: h.async_set_target_temperature(t))
+        res.probe("target_temp_" + ("C" if "C" in h.temperature_unit else "F"))
+    elif kind == "temp_unit":
+        h = facade.water_heater
+        u = ["C", "F", "°C", "°F", "f", "c"][op["arg"] % 6]
+        want_u = "F" if u in ("°F", "f", "F") else "C"
+        cur = spa.accessors[GeckoConstants.KEY_TEMP_UNITS].value
+        expect.update(kind="set", tag=GeckoConstants.KEY_TEMP_UNITS, value=want_u)
+        ctx += f" -> {u}"
+        thunk = (lambda: h.set_temperature_unit(u)) if sync else (lambda: h.async_set_temperature_unit(u))
+        res.probe("unit_" + want_u + ("_same" if cur == want_u else "_change"))
+    elif kind in ("watercare_idx", "watercare_label"):
+        wc = facade.water_care
+        idx = op["arg"] % 5
+        arg: Any = idx if kind == "watercare_idx" else GeckoConstants.WATERCARE_MODE_STRING[idx]
+        expect.update(kind="setwc", mode=idx)
+        ctx += f" -> {arg!r}"
+        thunk = (lambda: wc.set_mode(arg)) if sync else (lambda: wc.async_set_mode(arg))
+        res.probe("watercare_" + ("index" if kind == "watercare_idx" else "label"))
+    if thunk is None:
+        return None
+    return ctx, expect, thunk
+
+
+def judge(world, ctx: str, expect: Dict[str, Any], real: List[Dict[str, Any]], model, spa, facade, ident) -> None:
+    """The oracle for one command: `real` = the (non-duplicate) command datagrams that reached the model spa for it."""
+    res = world.result
+    want_type, want_cfg, want_log = ident
+
+    def spa_acc(tag: str):
+        return model.structure.accessors[tag]
+
+    if len(real) != expect["n"]:
+        world.violate(PROP, "command-count", f"{ctx}: {len(real)} command datagram(s) reached the spa, expected {expect['n']}: "
+                      f"{[c['raw'][:16] for c in real]}", sig="command-count:" + ("extra" if len(real) > expect["n"] else "missing"))
+    if expect["n"] == 0 or not real:
+        return
+    c = real[0]
+    if expect["kind"] == "setwc":
+        if c["kind"] != "setwc":
+            world.violate(PROP, "wrong-command", f"{ctx}: expected SETWC, spa received {c['raw'][:12]!r}")
+        raw = c["raw"]
+        if len(raw) != 7 or raw[6] != expect["mode"]:
+            world.violate(PROP, "wrong-write", f"{ctx}: SETWC content {raw!r}, expected mode {expect['mode']}")
+        if not (1 <= raw[5] <= 191):
+            world.violate(PROP, "sequence-range", f"{ctx}: SETWC sequence {raw[5]} outside 1..191")
+        if model.watercare_mode != expect["mode"]:
+            world.violate(PROP, "wrong-write", f"{ctx}: spa watercare mode is {model.watercare_mode}")
+        if facade.water_care.mode != expect["mode"]:
+            world.violate(PROP, "readback", f"{ctx}: facade watercare mode reads {facade.water_care.mode}")
+        return
+    if c["kind"] != "spack":
+        world.violate(PROP, "wrong-command", f"{ctx}: expected SPACK, spa received {c['raw'][:12]!r}")
+    d = decode_spack(c["raw"])
+    if not d["ok"]:
+        world.violate(PROP, "malformed-command", f"{ctx}: SPACK not well-formed: {c['raw']!r} -> {d}")
+    if not (192 <= d["seq"] <= 255):
+        world.violate(PROP, "sequence-range", f"{ctx}: SPACK sequence {d['seq']} outside the command range 192..255")
+    if d["pack_type"] != want_type:
+        world.violate(PROP, "wrong-pack-identity", f"{ctx}: SPACK pack type {d['pack_type']}, connected pack is type {want_type}")
+    if expect["kind"] == "key":
+        if d["cmd"] != 57 or d.get("key") != expect["key"]:
+            world.violate(PROP, "wrong-write", f"{ctx}: expected key press {expect['key']}, spa received cmd={d['cmd']} key={d.get('key')}")
+        sw = expect["switch"]
+        spa_on = _is_on(spa_acc(expect["state_tag"]))
+        if spa_on != expect["on"]:
+            world.violate(PROP, "wrong-write", f"{ctx}: after the key press the spa's {expect['state_tag']} reads on={spa_on}")
+        if bool(sw.is_on) != expect["on"]:
+            world.violate(PROP, "readback", f"{ctx}: after the echo the facade device reads is_on={sw.is_on}")
+        return
+    # set value
+    if d["cmd"] != 70:
+        world.violate(PROP, "wrong-write", f"{ctx}: expected a set-value command, spa received cmd={d['cmd']}")
+    if d["cfg"] != want_cfg or d["log"] != want_log:
+        world.violate(PROP, "wrong-pack-identity", f"{ctx}: SPACK carries config/log versions {d['cfg']}/{d['log']}, connected pack has {want_cfg}/{want_log}")
+    sa = spa_acc(expect["tag"])
+    if not (sa.pos == d["pos"] and sa.length == len(d["data"])):
+        world.violate(PROP, "wrong-write", f"{ctx}: write at {d['pos']} len {len(d['data'])}, item {expect['tag']} lives at {sa.pos} len {sa.length}")
+    # nothing but the item's own bits changed in the field
+    if sa.bitpos is not None:
+        fmt = ">B" if sa.length == 1 else ">H"
+        old_f = struct.unpack(fmt, c["before"][sa.pos:sa.pos + sa.length])[0]
+        new_f = struct.unpack(fmt, d["data"])[0]
+        item_mask = sa.bitmask << sa.bitpos
+        if (old_f ^ new_f) & ~item_mask:
+            world.violate(PROP, "collateral-bits", f"{ctx}: write {new_f:#x} over {old_f:#x} changes bits outside {expect['tag']}'s mask {item_mask:#x}")
+        res.probe("bitfield_write")
+    if "temp" in expect:
+        sv = sa.value
+        cv = spa.accessors[expect["tag"]].value
+        tol = 1 / 18.0 + 1e-9 if "C" in expect["unit"] else 0.1 + 1e-9
+        if abs(sv - expect["temp"]) > tol:
+            world.violate(PROP, "wrong-write", f"{ctx}: spa setpoint reads {sv}, requested {expect['temp']}")
+        if cv != sv or abs(facade.water_heater.target_temperature - expect["temp"]) > tol:
+            world.violate(PROP, "readback", f"{ctx}: facade target reads {facade.water_heater.target_temperature}, spa has {sv}")
+    else:
+        sv = sa.value
+        if sv != expect["value"]:
+            world.violate(PROP, "wrong-write", f"{ctx}: spa item {expect['tag']} reads {sv!r} after the write, requested {expect['value']!r}")
+        cv = spa.accessors[expect["tag"]].value
+        if cv != expect["value"]:
+            world.violate(PROP, "readback", f"{ctx}: after the echo the client reads {expect['tag']}={cv!r}, requested {expect['value']!r}")
+        if "switch" in expect and bool(expect["switch"].is_on) != expect["on"]:
+            world.violate(PROP, "readback", f"{ctx}: eco switch reads is_on={expect['switch'].is_on}")
+
+
 async def scenario(world: WorldA) -> None:
     import os
-
-    from geckolib import GeckoConstants
 
     cfg = world.cfg
     res = world.result
@@ -78,23 +259,17 @@ async def scenario(world: WorldA) -> None:
     sysm = System(world)
     model = sysm.peer.sim
     snap = load_snapshot(os.path.join(repo_root(), "tests", "snapshots", cfg["snapshot"]))
-    want_cfg, want_log = snap.config_version, snap.log_version
-    want_type = model.pack_type
+    ident = (model.pack_type, snap.config_version, snap.log_version)
 
     async with sysm.man as man:
         await sysm.wait_connected()
         facade = man.facade
         spa = facade.spa
-        switches = list(facade.blowers) + list(facade.lights)
-        pumps = list(facade.pumps)
         inflight: List[asyncio.Task] = []
 
         async def settle() -> None:
             # wait for the echo to be consumed: network quiet and the connection's queue empty
             await world.quiesce(extra_idle=0.35, cap=60.0, queues=[spa._protocol.queue] if spa._protocol is not None else None)
-
-        def spa_acc(tag: str):
-            return model.structure.accessors[tag]
 
         sent_verb: Dict[str, asyncio.Event] = {}
 
@@ -121,83 +296,11 @@ async def scenario(world: WorldA) -> None:
             gate_closed = not spa.is_responding_to_pings
             if gate_closed:
                 res.probe("gate_closed_at_command")
-            kind = op["op"]
             mark = len(model.commands)
-            ctx = f"command#{ci} {kind} snapshot={cfg['snapshot']}"
-            expect: Dict[str, Any] = {"n": 1}
-            coro = None
-            if kind == "pump_mode":
-                if not pumps:
-                    continue
-                p = pumps[op["dev"] % len(pumps)]
-                modes = list(p.modes)
-                mode = modes[op["arg"] % len(modes)]
-                demand = p._user_demand["demand"] if hasattr(p, "_user_demand") else None
-                if demand is None:
-                    raise HarnessError("GeckoPump._user_demand no longer exists")
-                expect.update(kind="set", tag=demand, value=mode)
-                ctx += f" {p.key} -> {mode}"
-                coro = p.async_set_mode(mode)
-                res.probe("pump_mode:" + mode)
-            elif kind in ("switch_on", "switch_off"):
-                if not switches:
-                    continue
-                s = switches[op["dev"] % len(switches)]
-                on = kind == "switch_on"
-                was_on = bool(s.is_on)
-                ctx += f" {s.key} was_on={was_on}"
-                props = GeckoConstants.DEVICES[s.key]
-                if was_on == on:
-                    expect.update(n=0)
-                    res.probe(f"{'on' if on else 'off'}_when_already:{type(s).__name__}")
-                else:
-                    expect.update(kind="key", key=KEYPAD[s.key], state_tag=props[2], on=on, switch=s)
-                    res.probe(f"{'on' if on else 'off'}_from_{'on' if was_on else 'off'}:{type(s).__name__}")
-                coro = s.async_turn_on() if on else s.async_turn_off()
-            elif kind in ("eco_on", "eco_off"):
-                s = facade.eco_mode
-                if s is None:
-                    continue
-                on = kind == "eco_on"
-                was_on = bool(s.is_on)
-                ctx += f" eco was_on={was_on}"
-                if was_on == on:
-                    expect.update(n=0)
-                    res.probe("eco_already")
-                else:
-                    expect.update(kind="set", tag=GeckoConstants.KEY_ECON_ACTIVE, value=on, switch=s, on=on)
-                    res.probe("eco_" + ("on" if on else "off"))
-                coro = s.async_turn_on() if on else s.async_turn_off()
-            elif kind == "target_temp":
-                h = facade.water_heater
-                if not h.is_present:
-                    continue
-                lo, hi = h.min_temp, h.max_temp
-                t = lo + (op["arg"] % 1000) / 1000.0 * (hi - lo)
-                t = round(t, 1) if op["arg"] % 2 else float(int(t))
-                expect.update(kind="set", tag=GeckoConstants.KEY_SETPOINT_G, temp=t, unit=h.temperature_unit)
-                ctx += f" -> {t}{h.temperature_unit}"
-                coro = h.async_set_target_temperature(t)
-                res.probe("target_temp_" + ("C" if "C" in h.temperature_unit else "F"))
-            elif kind == "temp_unit":
-                h = facade.water_heater
-                u = ["C", "F", "°C", "°F", "f", "c"][op["arg"] % 6]
-                want_u = "F" if u in ("°F", "f", "F") else "C"
-                cur = spa.accessors[GeckoConstants.KEY_TEMP_UNITS].value
-                expect.update(kind="set", tag=GeckoConstants.KEY_TEMP_UNITS, value=want_u)
-                ctx += f" -> {u}"
-                coro = h.async_set_temperature_unit(u)
-                res.probe("unit_" + want_u + ("_same" if cur == want_u else "_change"))
-            elif kind in ("watercare_idx", "watercare_label"):
-                wc = facade.water_care
-                idx = op["arg"] % 5
-                arg: Any = idx if kind == "watercare_idx" else GeckoConstants.WATERCARE_MODE_STRING[idx]
-                expect.update(kind="setwc", mode=idx)
-                ctx += f" -> {arg!r}"
-                coro = wc.async_set_mode(arg)
-                res.probe("watercare_" + ("index" if kind == "watercare_idx" else "label"))
-            if coro is None:
+            built = build_command(op, ci, facade, spa, res, cfg["snapshot"], sync=False)
+            if built is None:
                 continue
+            ctx, expect, thunk = built
             res.stats["commands"] = res.stats.get("commands", 0) + 1
             if op.get("overlap") and expect["n"] == 1:
                 # issue it while another request is in flight (it queues on the protocol lock)
@@ -206,7 +309,7 @@ async def scenario(world: WorldA) -> None:
             from geckolib.config import GeckoConfig
             res.probe("in_active_mode" if GeckoConfig.PING_FREQUENCY_IN_SECONDS < 30 else "in_idle_mode")
             try:
-                await coro
+                await thunk()
             except Exception as e:
                 world.violate(PROP, "command-raised", f"{ctx}: raised {type(e).__name__}: {e}")
             await settle()
@@ -215,83 +318,11 @@ async def scenario(world: WorldA) -> None:
             if len(real) == 0 and expect["n"] == 1 and gate_closed:
                 # the spa answers every ping on this benign network, yet the library's ping gate was closed and the command
                 # was dropped without any error: recorded (not raised) so that the rest of the history is still judged
-                from geckolib.config import GeckoConfig as _GC
                 world.note(PROP, "command-dropped", f"{ctx}: silently dropped: is_responding_to_pings was False although the spa answers "
-                           f"every ping (last reply older than 2 x PING_FREQUENCY={_GC.PING_FREQUENCY_IN_SECONDS}s after the timing table changed "
+                           f"every ping (last reply older than 2 x PING_FREQUENCY={GeckoConfig.PING_FREQUENCY_IN_SECONDS}s after the timing table changed "
                            f"or while the lock delayed the ping)", sig="command-dropped:ping-gate-closed-on-benign-network")
                 continue
-            if len(real) != expect["n"]:
-                world.violate(PROP, "command-count", f"{ctx}: {len(real)} command datagram(s) reached the spa, expected {expect['n']}: "
-                              f"{[c['raw'][:16] for c in real]}", sig="command-count:" + ("extra" if len(real) > expect["n"] else "missing"))
-            if expect["n"] == 0:
-                continue
-            c = real[0]
-            if expect["kind"] == "setwc":
-                if c["kind"] != "setwc":
-                    world.violate(PROP, "wrong-command", f"{ctx}: expected SETWC, spa received {c['raw'][:12]!r}")
-                raw = c["raw"]
-                if len(raw) != 7 or raw[6] != expect["mode"]:
-                    world.violate(PROP, "wrong-write", f"{ctx}: SETWC content {raw!r}, expected mode {expect['mode']}")
-                if not (1 <= raw[5] <= 191):
-                    world.violate(PROP, "sequence-range", f"{ctx}: SETWC sequence {raw[5]} outside 1..191")
-                if model.watercare_mode != expect["mode"]:
-                    world.violate(PROP, "wrong-write", f"{ctx}: spa watercare mode is {model.watercare_mode}")
-                if facade.water_care.mode != expect["mode"]:
-                    world.violate(PROP, "readback", f"{ctx}: facade watercare mode reads {facade.water_care.mode}")
-                continue
-            if c["kind"] != "spack":
-                world.violate(PROP, "wrong-command", f"{ctx}: expected SPACK, spa received {c['raw'][:12]!r}")
-            d = decode_spack(c["raw"])
-            if not d["ok"]:
-                world.violate(PROP, "malformed-command", f"{ctx}: SPACK not well-formed: {c['raw']!r} -> {d}")
-            if not (192 <= d["seq"] <= 255):
-                world.violate(PROP, "sequence-range", f"{ctx}: SPACK sequence {d['seq']} outside the command range 192..255")
-            if d["pack_type"] != want_type:
-                world.violate(PROP, "wrong-pack-identity", f"{ctx}: SPACK pack type {d['pack_type']}, connected pack is type {want_type}")
-            if expect["kind"] == "key":
-                if d["cmd"] != 57 or d.get("key") != expect["key"]:
-                    world.violate(PROP, "wrong-write", f"{ctx}: expected key press {expect['key']}, spa received cmd={d['cmd']} key={d.get('key')}")
-                sw = expect["switch"]
-                spa_on = _is_on(spa_acc(expect["state_tag"]))
-                if spa_on != expect["on"]:
-                    world.violate(PROP, "wrong-write", f"{ctx}: after the key press the spa's {expect['state_tag']} reads on={spa_on}")
-                if bool(sw.is_on) != expect["on"]:
-                    world.violate(PROP, "readback", f"{ctx}: after the echo the facade device reads is_on={sw.is_on}")
-                continue
-            # set value
-            if d["cmd"] != 70:
-                world.violate(PROP, "wrong-write", f"{ctx}: expected a set-value command, spa received cmd={d['cmd']}")
-            if d["cfg"] != want_cfg or d["log"] != want_log:
-                world.violate(PROP, "wrong-pack-identity", f"{ctx}: SPACK carries config/log versions {d['cfg']}/{d['log']}, connected pack has {want_cfg}/{want_log}")
-            sa = spa_acc(expect["tag"])
-            if not (sa.pos == d["pos"] and sa.length == len(d["data"])):
-                world.violate(PROP, "wrong-write", f"{ctx}: write at {d['pos']} len {len(d['data'])}, item {expect['tag']} lives at {sa.pos} len {sa.length}")
-            # nothing but the item's own bits changed in the field
-            if sa.bitpos is not None:
-                fmt = ">B" if sa.length == 1 else ">H"
-                old_f = struct.unpack(fmt, c["before"][sa.pos:sa.pos + sa.length])[0]
-                new_f = struct.unpack(fmt, d["data"])[0]
-                item_mask = sa.bitmask << sa.bitpos
-                if (old_f ^ new_f) & ~item_mask:
-                    world.violate(PROP, "collateral-bits", f"{ctx}: write {new_f:#x} over {old_f:#x} changes bits outside {expect['tag']}'s mask {item_mask:#x}")
-                res.probe("bitfield_write")
-            if "temp" in expect:
-                sv = sa.value
-                cv = spa.accessors[expect["tag"]].value
-                tol = 1 / 18.0 + 1e-9 if "C" in expect["unit"] else 0.1 + 1e-9
-                if abs(sv - expect["temp"]) > tol:
-                    world.violate(PROP, "wrong-write", f"{ctx}: spa setpoint reads {sv}, requested {expect['temp']}")
-                if cv != sv or abs(facade.water_heater.target_temperature - expect["temp"]) > tol:
-                    world.violate(PROP, "readback", f"{ctx}: facade target reads {facade.water_heater.target_temperature}, spa has {sv}")
-            else:
-                sv = sa.value
-                if sv != expect["value"]:
-                    world.violate(PROP, "wrong-write", f"{ctx}: spa item {expect['tag']} reads {sv!r} after the write, requested {expect['value']!r}")
-                cv = spa.accessors[expect["tag"]].value
-                if cv != expect["value"]:
-                    world.violate(PROP, "readback", f"{ctx}: after the echo the client reads {expect['tag']}={cv!r}, requested {expect['value']!r}")
-                if "switch" in expect and bool(expect["switch"].is_on) != expect["on"]:
-                    world.violate(PROP, "readback", f"{ctx}: eco switch reads is_on={expect['switch'].is_on}")
+            judge(world, ctx, expect, real, model, spa, facade, ident)
         for t in inflight:
             if not t.done():
                 await asyncio.wait([t], timeout=60)
@@ -315,6 +346,10 @@ def _is_on(acc) -> bool:
 
 
 def run_case(case: Dict[str, Any], replay: Optional[Dict[str, Any]] = None, keep_log: bool = False) -> RunResult:
+    if case.get("world") == "T":
+        from props import c13_t
+
+        return c13_t.run_case(case, replay, keep_log)
     world = WorldA(case, replay, keep_log=keep_log)
     return world.run(scenario)
 
@@ -350,7 +385,7 @@ N_QUICK = 68
 def jobs(tier: str, base_seed: int):
     n = len(snapshot_files())
     if tier == "quick":
-        for i in range(0, 8 * n, 4):
+        for i in range(0, 10 * n, 4):
             yield {"kind": "seeded", "first": i, "count": 4, "mandatory": True}
     else:
         i = 0
@@ -364,5 +399,5 @@ def job_cases(job, tier: str, base_seed: int):
 
     for i in range(job["first"], job["first"] + job["count"]):
         c = gen_case(run_seed(PROP, base_seed, i), tier, i)
-        c["subspace"] = "snapshot:" + c["cfg"]["snapshot"].split("-")[0]
+        c["subspace"] = ("blocking:" if c.get("world") == "T" else "") + "snapshot:" + c["cfg"]["snapshot"].split("-")[0]
         yield c
